@@ -27,7 +27,7 @@ for sid in sorted(d for d in os.listdir("/verif/seeded") if os.path.isdir(os.pat
     rows.append((sid, meta["breaks_property"], status, by, first))
 with open("/verif/seeded/README.md", "w") as f:
     f.write("# Seeded changes and the checks that catch them\n\nEach directory holds `patch.diff` (applies to /repo HEAD), `demo.py` (fails with the change, passes without), `meta.json`.\n"
-            "`-mN` = first wave (2 per property), `-nN` = second wave (3 per property, asked for less obvious mechanisms). All were written by sub-agents that saw only the property text.\n"
+            "`-mN` = first wave (2 per property), `-nN` = second wave (3 per property, asked for less obvious mechanisms), `-pN` = third wave, `-qN` = fourth wave (one per property for ten properties, asked for mechanisms that need something specific to manifest). All were written by sub-agents that saw only the property text.\n"
             "Result of running the quick check of the property the change was written for (`tools/seedall.py`, each change in its own scratch worktree via VERIF_REPO):\n\n")
     f.write("| change | property | result | first violated condition (counterexample call) | what was changed |\n|---|---|---|---|---|\n")
     for r in rows:
